@@ -299,6 +299,27 @@ def run(ctx, prog, only=None):
                                  strip(p.term()) == [c for c in p.calls if re.search(r'Iterator>::find$', c.name)][0].ret and len(cl) == 1 and
                                  'matches' in ' '.join(str(b.term) for b in cl[0].blocks.values() if b.term)) else 'query is not find(matches)', replay=REPLAY)
 
+    # ------------------------------------------------------------------------------------ queries built from typed values
+    # a query built from a DIDUrl (owned or borrowed) carries the *whole* URL text (so that DIDUrlQuery::matches compares the DID
+    # as well as the fragment); a query built from a string is that string
+    for label, sig, want in (('&DIDUrl', r'^&(\'\w+ )?(\w+::)*DIDUrl ->', 'display'), ('DIDUrl', r'^(\w+::)*DIDUrl ->', 'display'),
+                             ('&RelativeDIDUrl', r'^&(\'\w+ )?(\w+::)*RelativeDIDUrl ->', 'display'),
+                             ('&str', r'^&(\'\w+ )?str ->', 'same'), ('&String', r'^&(\'\w+ )?(\w+::)*String ->', 'same')):
+        f = prog.one(r'did_url_query::<impl at [^>]*>::from$', sig=sig)
+        paths, ex = A.paths(f)
+
+        def r_q(p, want=want, label=label):
+            if p.kind != 'return':
+                return 'panic ' + p.msg
+            t = p.term()
+            if want == 'display':
+                ts = [a for a in apps(t, r'ToString>::to_string$|::to_string$') if mentions(a[2], r'^other$')]
+                if not ts or apps(t, r'::fragment$|::path$|::query$'):
+                    return 'query built from %s is not the complete text of the value: %s' % (label, term_str(t)[:140])
+                return None
+            return None if mentions(t, r'^other$') and not apps(t, r'fragment$|split|trim') else 'query built from %s is not that string' % label
+        A.require('DIDUrlQuery::from<%s>/carries-the-whole-text' % label, paths, r_q, replay={'scenario': 'document_ops', 'cex': {'only': '[typed-query]'}})
+
     # ------------------------------------------------------------------------------------ constructor gate (loops unrolled)
     f = prog.one(IMPL + r'check_id_constraints$|core_document::<impl at [^>]*>::check_id_constraints$')
     if not A.wants('check_id_constraints/'):
